@@ -32,6 +32,33 @@ pub proof fn lemma_sent_atomic<D: DiffHook>(em: Seq<Ev>)
     }
 }
 
+/// a script accepted by the exact normal-form checker that deletes and inserts nothing is empty or one Equal
+pub proof fn lemma_x_only_equal(rel: Rel, x0: Xs, evs: Seq<Ev>)
+  requires x0.dels == 0, x0.inss == 0, x0.last == 0, xrun(rel, x0, evs).ok, xrun(rel, x0, evs).dels == 0, xrun(rel, x0, evs).inss == 0
+  ensures evs.len() <= 1,
+      evs.len() == 1 ==> evs[0] == Ev::Equal(x0.oc as usize, x0.nc as usize, (xrun(rel, x0, evs).oc - x0.oc) as usize) && xrun(rel, x0, evs).oc > x0.oc,
+      evs.len() == 0 ==> xrun(rel, x0, evs) == x0
+  decreases evs.len()
+{
+    if evs.len() > 0 {
+        let e0 = evs.drop_last(); let e = evs.last();
+        assert(e0.push(e) =~= evs);
+        lemma_xrun_push(rel, x0, e0, e);
+        lemma_x_counts(rel, x0, e0);
+        let x1 = xrun(rel, x0, e0);
+        lemma_x_only_equal(rel, x0, e0);
+        if e0.len() == 1 { assert(x1.last == 1) by { assert(e0.drop_last() =~= Seq::<Ev>::empty()); lemma_xrun_push(rel, x0, e0.drop_last(), e0.last()); assert(e0.drop_last().push(e0.last()) =~= e0); } }
+    }
+}
+
+/// totals only grow and a state is not ok unless its predecessor was
+pub proof fn lemma_x_counts(rel: Rel, x0: Xs, evs: Seq<Ev>)
+  ensures xrun(rel, x0, evs).dels >= x0.dels, xrun(rel, x0, evs).inss >= x0.inss, xrun(rel, x0, evs).ok ==> x0.ok
+  decreases evs.len()
+{
+    if evs.len() > 0 { lemma_x_counts(rel, x0, evs.drop_last()); }
+}
+
 //@@ item src/common.rs :: ^pub fn capture_diff< rw=R0
 pub fn capture_diff<Old, New>(
     alg: Algorithm,
@@ -53,6 +80,11 @@ where
 /*@*/     /*S*/     cap_post(old, old_range, new, new_range, res@, true),    // [C11]
 /*@*/     /*L*/     (true && alg != Algorithm::Patience) ==> cap_eqs(old, old_range, new, new_range, res@, false)
 /*@*/     /*L*/         == lcs_len(old, old_range.start as int, old_range.end as int, new, new_range.start as int, new_range.end as int),   // [C03]
+/*@*/     /*L*/     // C02: identical inputs give only Equal ops (none for two empty inputs) - for the minimal algorithms without deadline
+/*@*/     /*L*/     (true && alg != Algorithm::Patience && (old_range.end - old_range.start) == (new_range.end - new_range.start)
+/*@*/     /*L*/         && (forall|i: int| 0 <= i < old_range.end - old_range.start ==> #[trigger] relk(rel_of(old, new), old_range.start as int, new_range.start as int, i)))
+/*@*/     /*L*/         ==> (res@.len() == (if old_range.end > old_range.start { 1nat } else { 0nat })
+/*@*/     /*L*/              && (old_range.end > old_range.start ==> res@[0] == DiffOp::Equal { old_index: old_range.start, new_index: new_range.start, len: (old_range.end - old_range.start) as usize })),
 {
     capture_diff_deadline(alg, old, old_range, new, new_range, None)
 }
@@ -80,6 +112,11 @@ where
 /*@*/     /*S*/     cap_post(old, old_range, new, new_range, res@, true),    // [C11]
 /*@*/     /*L*/     (deadline is None && alg != Algorithm::Patience) ==> cap_eqs(old, old_range, new, new_range, res@, false)
 /*@*/     /*L*/         == lcs_len(old, old_range.start as int, old_range.end as int, new, new_range.start as int, new_range.end as int),   // [C03]
+/*@*/     /*L*/     // C02: identical inputs give only Equal ops (none for two empty inputs) - for the minimal algorithms without deadline
+/*@*/     /*L*/     (deadline is None && alg != Algorithm::Patience && (old_range.end - old_range.start) == (new_range.end - new_range.start)
+/*@*/     /*L*/         && (forall|i: int| 0 <= i < old_range.end - old_range.start ==> #[trigger] relk(rel_of(old, new), old_range.start as int, new_range.start as int, i)))
+/*@*/     /*L*/         ==> (res@.len() == (if old_range.end > old_range.start { 1nat } else { 0nat })
+/*@*/     /*L*/              && (old_range.end > old_range.start ==> res@[0] == DiffOp::Equal { old_index: old_range.start, new_index: new_range.start, len: (old_range.end - old_range.start) as usize })),
 {
     let mut d = Compact::new(Replace::new(Capture::new()), old, new);
     /*@*/ let ghost rel = rel_of(old, new);
@@ -141,6 +178,13 @@ where
     /*@*/     assert(xs.ok && xs.oc == oe && xs.nc == ne);
     /*@*/     assert(evs_of(cp.ops_spec()) == rp.em_());
     /*@*/     assert(xs.eqs == seg_eqs(rel, lvl, s, os, ns, oe, ne));   // [C03]
+    /*@*/     if deadline is None && alg != Algorithm::Patience && oe - os == ne - ns
+    /*@*/         && (forall|i: int| 0 <= i < oe - os ==> #[trigger] relk(rel, os, ns, i)) {
+    /*@*/         lemma_lcs_prefix(old, os, oe, new, ns, ne, oe - os);
+    /*@*/         lemma_lcs_empty(old, oe, oe, new, ne, ne);
+    /*@*/         lemma_x_only_equal(rel, rp.x0(), rp.em_());
+    /*@*/         if rp.em_().len() == 1 { assert(cp.ops_spec()[0] == op_of(rp.em_()[0])) by { lemma_op_of_ev_of(cp.ops_spec()[0]); } }
+    /*@*/     }
     /*@*/ }
     d.into_inner().into_inner().into_ops()
 }
@@ -158,6 +202,11 @@ where
 /*@*/     /*S*/     cap_post(old, (0..old.len()), new, (0..new.len()), res@, true),    // [C11]
 /*@*/     /*L*/     (true && alg != Algorithm::Patience) ==> cap_eqs(old, (0..old.len()), new, (0..new.len()), res@, false)
 /*@*/     /*L*/         == lcs_len(old, (0..old.len()).start as int, (0..old.len()).end as int, new, (0..new.len()).start as int, (0..new.len()).end as int),   // [C03]
+/*@*/     /*L*/     // C02: identical inputs give only Equal ops (none for two empty inputs) - for the minimal algorithms without deadline
+/*@*/     /*L*/     (true && alg != Algorithm::Patience && ((0..old.len()).end - (0..old.len()).start) == ((0..new.len()).end - (0..new.len()).start)
+/*@*/     /*L*/         && (forall|i: int| 0 <= i < (0..old.len()).end - (0..old.len()).start ==> #[trigger] relk(rel_of(old, new), (0..old.len()).start as int, (0..new.len()).start as int, i)))
+/*@*/     /*L*/         ==> (res@.len() == (if (0..old.len()).end > (0..old.len()).start { 1nat } else { 0nat })
+/*@*/     /*L*/              && ((0..old.len()).end > (0..old.len()).start ==> res@[0] == DiffOp::Equal { old_index: (0..old.len()).start, new_index: (0..new.len()).start, len: ((0..old.len()).end - (0..old.len()).start) as usize })),
 {
     capture_diff_slices_deadline(alg, old, new, None)
 }
@@ -180,6 +229,11 @@ where
 /*@*/     /*S*/     cap_post(old, (0..old.len()), new, (0..new.len()), res@, true),    // [C11]
 /*@*/     /*L*/     (deadline is None && alg != Algorithm::Patience) ==> cap_eqs(old, (0..old.len()), new, (0..new.len()), res@, false)
 /*@*/     /*L*/         == lcs_len(old, (0..old.len()).start as int, (0..old.len()).end as int, new, (0..new.len()).start as int, (0..new.len()).end as int),   // [C03]
+/*@*/     /*L*/     // C02: identical inputs give only Equal ops (none for two empty inputs) - for the minimal algorithms without deadline
+/*@*/     /*L*/     (deadline is None && alg != Algorithm::Patience && ((0..old.len()).end - (0..old.len()).start) == ((0..new.len()).end - (0..new.len()).start)
+/*@*/     /*L*/         && (forall|i: int| 0 <= i < (0..old.len()).end - (0..old.len()).start ==> #[trigger] relk(rel_of(old, new), (0..old.len()).start as int, (0..new.len()).start as int, i)))
+/*@*/     /*L*/         ==> (res@.len() == (if (0..old.len()).end > (0..old.len()).start { 1nat } else { 0nat })
+/*@*/     /*L*/              && ((0..old.len()).end > (0..old.len()).start ==> res@[0] == DiffOp::Equal { old_index: (0..old.len()).start, new_index: (0..new.len()).start, len: ((0..old.len()).end - (0..old.len()).start) as usize })),
 {
     capture_diff_deadline(alg, old, 0..old.len(), new, 0..new.len(), deadline)
 }
